@@ -261,6 +261,8 @@ class Executor:
         for k, v in st.get("kwargs", {}).items():
             if isinstance(v, dict) and "nd" in v:
                 kwargs[k] = np.array(v["nd"])
+            elif isinstance(v, dict) and "ref" in v:
+                kwargs[k] = self._get(v["ref"])      # a caller-owned array object, possibly reused
             else:
                 kwargs[k] = v
         new = self._get(st["obj"])(**kwargs)
@@ -268,6 +270,13 @@ class Executor:
             self.objs[st["out"]] = new
             self.kinds[st["out"]] = "program"
         return D.render_program(new, self.root, self.loose)
+
+    def op_mkarray(self, st):
+        """A caller-owned numpy array that later template calls can be given by reference."""
+        import numpy as np
+        self.objs[st["out"]] = np.array(st["nd"], dtype=float)
+        self.kinds[st["out"]] = "value"
+        return ["array", list(self.objs[st["out"]].shape)]
 
     def op_digraph(self, st):
         from blackbird.utils import to_DiGraph
